@@ -12,7 +12,8 @@ def gen_range(t, size, chunk):
         return t.choice(["bytes=", "bytes=abc", "bytes", "bytes=-", "bytes=5-4", "bytes= ", "bytes=a-b", "bytes=9-1"]), "malformed"
     if k == 1:
         return t.choice(["items=0-1", "chars=0-", "BYTES=0-1", "bytes =0-1"]), "other-unit"
-    nums = [0, 0, 1, 2, max(0, size - 1), size, size + 1, max(0, chunk - 1), chunk, chunk + 1, 2 * chunk, size // 2, size * 2 + 3, 10 ** 12]
+    nums = [0, 0, 1, 2, max(0, size - 1), size, size + 1, max(0, chunk - 1), chunk, chunk + 1, 2 * chunk, size // 2, size * 2 + 3, 10 ** 12,
+            2 ** 31, 2 ** 63 - 1, 2 ** 63, 10 ** 19, 10 ** 20, 10 ** 25 + 7]     # positions beyond every machine word: still numbers
     nspec = 1 + t.draw(5) if t.draw(3) else 1
     inside = size > 0 and t.draw(2) == 0     # keep every spec inside the file: the set stays satisfiable
     if inside:
